@@ -239,7 +239,13 @@ impl ArrivalBound for Curve {
             let prefix = delta / self.largest_known_distance();
             let prefix_jobs = prefix as usize * self.jobs_in_largest_known_distance();
             let tail = delta % self.largest_known_distance();
-            if tail > self.min_job_separation() {
+            if tail.is_zero() {
+                // An interval of exactly the largest known distance holds only
+                // as many jobs as the delta-min vector admits for it; if the
+                // vector ends in a plateau, that is fewer than one job per entry.
+                let last = self.lookup_arrivals(self.largest_known_distance());
+                prefix_jobs - self.jobs_in_largest_known_distance() + last
+            } else if tail > self.min_job_separation() {
                 prefix_jobs + self.lookup_arrivals(tail) as usize
             } else {
                 prefix_jobs + tail.is_non_zero() as usize
